@@ -26,7 +26,7 @@ def FUNCTIONS():
   P, K = F.FastbootProtocol, F.FastbootCommands
   return [P.send_command, P.handle_simple_responses, P.handle_data_sending, P._accept_responses,
           P._handle_progress, P._write, K._simple_command, K.download, K.flash, K.erase, K.get_var,
-          K.oem, K.reboot, K.continue_, K.reboot_bootloader]
+          K.oem, K.reboot, K.continue_, K.reboot_bootloader, K.flash_from_file]
 
 
 BOUNDS = {'responses': '<= 3 device packets per command, each a fully symbolic str of length <= 6 (plus the empty read after the script ends)',
@@ -34,10 +34,11 @@ BOUNDS = {'responses': '<= 3 device packets per command, each a fully symbolic s
           'DATA packets': 'carry a well-formed 8-hex-digit size field (a malformed DATA packet raises binascii/struct errors: observation, outside the claim)',
           'image sizes': '{0, 1, c-1, c, c+1, 2c, 2c+1} for configured chunk size c = 1 KiB; DATA size field in {size, size+1, size-1, 0}',
           'image content': 'concrete pattern (i*7+3) % 251; the transfer code never inspects content',
-          'progress callback': 'raises on a symbolic subset of its first 3 calls'}
+          'progress callback': 'raises on a symbolic subset of its first 3 calls',
+          'flash_from_file': 'image sizes {1, c, c+1}; after the DATA reply 3 fully symbolic packets (len <= 6) shared by the download tail and the flash command; source_len given or taken from a stubbed os.stat'}
 STUBS = ['FakeUsb: scripted reads / recorded writes', 'fmtshim (error message texts with symbolic device text are not checked; the "carrying the device text" clause is checked on concrete texts)']
 ASSUMPTIONS = ['the device answers with str packets (Python-3 str transport as in the module)', 'after the scripted responses the device is silent (read returns the empty packet)']
-OUTSIDE = ['images >= 4 GiB (9 hex digits)', 'FastbootDevice retry wrapper', 'real files / os.stat path of download(filename)']
+OUTSIDE = ['images >= 4 GiB (9 hex digits)', 'FastbootDevice retry wrapper', 'real files (download(filename) opening a path; os.stat is stubbed in c_flash_from_file)']
 
 
 class FakeUsb:
@@ -300,3 +301,62 @@ def w_download(pre: str, post: str) -> bool:
   usb = FakeUsb([pre, 'DATA' + _hex8(size), post])
   kind, val = _run(lambda: F.FastbootCommands(usb).download(io.StringIO(_image(size)), source_len=size, info_cb=lambda m: None))
   return not (kind == 'ok' and len(usb.writes) == 3 and val == 'ok' and pre[:4] == 'INFO')
+
+
+@cond(timeout=600, split={'si': (1, 3, 4)})
+def c_flash_from_file(si: int, r1: str, r2: str, r3: str, use_len: bool) -> bool:
+  """
+  pre: si == 1 or si == 3 or si == 4
+  pre: len(r1) <= 6 and len(r2) <= 6 and len(r3) <= 6
+  post: _
+  """
+  # Two-command sequence of the public API: download (announce, DATA, image, r1 r2 ...) and then flash:<partition>.
+  size = _SIZES[si]
+  img = _image(size)
+  resps = ['DATA' + _hex8(size), r1, r2, r3]
+  usb = FakeUsb(resps)
+  infos = []
+  cmds = F.FastbootCommands(usb)
+  _orig_os = F.os
+  if not use_len:      # source_len=0 falls back to os.stat(source_file): module-local stub, the real os is untouched
+    F.os = type('OsStub', (), {'stat': staticmethod(lambda f: type('S', (), {'st_size': size})())})
+  try:
+    kind, val = _run(lambda: cmds.flash_from_file('boot', io.StringIO(img), source_len=(size if use_len else 0),
+                                                  info_cb=lambda m: infos.append((m.header, m.message))))
+  finally:
+    F.os = _orig_os
+  reach()
+  w = usb.writes
+  if not w or w[0] != 'download:' + _hex8(size) or usb.events[0] != 'w':
+    return False
+  nchunks = (size + C - 1) // C
+  if ''.join(w[1:1 + nchunks]) != img:
+    return False
+  rest = w[1 + nchunks:]
+  # the download ends with the first terminating packet after the image
+  k1, p1, i1, n1 = _spec_accept_n(resps[1:], 'OKAY')
+  if k1 != 'ok':
+    # download failed: its error surfaces and no flash command is sent
+    return kind == k1 and rest == [] and infos == i1
+  # exactly one flash command, a single packet, sent only after the download's OKAY was read
+  if rest != ['flash:boot']:
+    return False
+  if usb.events.index('w', 0) != 0 or usb.events.count('w') != 2 + nchunks:
+    return False
+  k2, p2, i2, n2 = _spec_accept_n(resps[1 + n1:], 'OKAY')
+  if kind != k2 or infos != i1 + i2:
+    return False
+  return kind != 'ok' or val == p1 + p2
+
+
+@cond(timeout=120, expect='refute')
+def w_flash_from_file(r1: str, r2: str) -> bool:
+  """
+  pre: len(r1) <= 6 and len(r2) <= 6
+  post: _
+  """
+  size = C + 1
+  usb = FakeUsb(['DATA' + _hex8(size), r1, r2])
+  kind, val = _run(lambda: F.FastbootCommands(usb).flash_from_file('boot', io.StringIO(_image(size)), source_len=size,
+                                                                   info_cb=lambda m: None))
+  return not (kind == 'ok' and usb.writes[-1] == 'flash:boot' and val == 'ab' and r1 == 'OKAYa')
